@@ -52,7 +52,7 @@ type TLCResult struct {
 	Distinct    int64
 	Initial     int64
 	Depth       int
-	Violated    string // name of violated invariant/property, "" if none
+	Violated    string            // name of violated invariant/property, "" if none
 	Cases       []json.RawMessage // VCASE payloads
 	Edges       []json.RawMessage // VEDGE payloads
 	Output      string
